@@ -303,9 +303,9 @@ func (r *Run) writeEvidence(wall time.Duration) {
 			"exhaustive":                    false,
 		},
 	}
-	os.MkdirAll(filepath.Join(verifDir, "evidence"), 0o755)
+	os.MkdirAll(filepath.Join(outDir, "evidence"), 0o755)
 	b, _ := json.MarshalIndent(ev, "", " ")
-	os.WriteFile(filepath.Join(verifDir, "evidence", id+".json"), b, 0o644)
+	os.WriteFile(filepath.Join(outDir, "evidence", id+".json"), b, 0o644)
 }
 
 func prefixAll(p string, l []string) []string {
